@@ -39,7 +39,8 @@
 (*  pattern  [k, n, qt]: k \in {"exact","domain","wild","all"} for          *)
 (*           n , ||n^ , *.n , ||*^ ; qt = "" or a query type to which the  *)
 (*           rule is restricted ($dnstype=qt); k = "re" for one of the     *)
-(*           regular-expression rules of ReMatches, n = <<shape>>          *)
+(*           regular-expression rules of ReMatches, n = <<shape>>; wl =    *)
+(*           TRUE for an exception rule (@@...)                            *)
 (*  request  [addr, form, id, idcase, name, spell, qtype, proto]           *)
 (*           id = "" when the client sent no ClientID; idcase / spell /    *)
 (*           form are carried only so that the statement's quantifiers are *)
@@ -61,8 +62,12 @@ CidrM(p)   == [k |-> "cidr", fam |-> "v4", bits |-> p,  id |-> NoId, sp |-> "map
 \* such a request fails).  It names no client.
 BadId == "~bad"
 
-Pat(k, n)      == [k |-> k, n |-> n, qt |-> ""]
-PatT(k, n, qt) == [k |-> k, n |-> n, qt |-> qt]
+Pat(k, n)      == [k |-> k, n |-> n, qt |-> "", wl |-> FALSE]
+PatT(k, n, qt) == [k |-> k, n |-> n, qt |-> qt, wl |-> FALSE]
+\* Exception rules ("@@" in the list's AdBlock-style syntax): the names they
+\* match are excepted from the list, not put on it.
+PatX(k, n)      == [k |-> k, n |-> n, qt |-> "", wl |-> TRUE]
+PatXT(k, n, qt) == [k |-> k, n |-> n, qt |-> qt, wl |-> TRUE]
 
 \* ----------------------------------------------------------------- addresses
 \* p is a prefix of the bit string b ("Contains" of section 3).
@@ -157,9 +162,15 @@ Undetermined(p, n, q) ==
     p.k = "wild" /\ TypeOk(p, q) /\ ~NameOnListBy(p, n) /\ OccursInside(p.n, n)
 
 \* Set of admissible answers to "is name n / type q on the blocked-hosts list H".
+\* An exception rule that matches wins over every blocking rule that matches
+\* (the rule engine's precedence without $important, which is not generated):
+\* an excepted name is not "a name on the blocked-hosts list", whether a blocking
+\* rule stands around it or not, and its requests are "other requests".
+Excepted(H, n, q) == \E p \in H : p.wl /\ OnListBy(p, n, q)
 HostBlocked(H, n, q) ==
-    IF \E p \in H : OnListBy(p, n, q) THEN {TRUE}
-    ELSE IF \E p \in H : Undetermined(p, n, q) THEN {TRUE, FALSE}
+    IF Excepted(H, n, q) THEN {FALSE}
+    ELSE IF \E p \in H : ~p.wl /\ OnListBy(p, n, q) THEN {TRUE}
+    ELSE IF \E p \in H : ~p.wl /\ Undetermined(p, n, q) THEN {TRUE, FALSE}
     ELSE {FALSE}
 
 \* What an empty blocked-hosts list of a *configuration* stands for
